@@ -40,6 +40,8 @@ class C06(Prop):
     # translator tie: Subject / SubjectThreads (the compiler's own expansion of the subject macros) and the
     # Subscriber slot, generated from the current source, are the list part / the alive bit of the subject model
     tie_modules = {
+        # subject.rs / behavior_subject.rs / start.rs pinned wholesale on top of their semantic ties
+        "RxModel.GenTie.PinsSubject": [],
         # critical sections read off the source (rs2lean/src/holds.rs): which calls are made while which shared cell is held — the policies (P4: a subject delivers under its observers cell only, never under the chamber)
         "RxModel.GenTie.Holds": [],
         "RxModel.GenTie.Subject": [],
